@@ -132,6 +132,9 @@ func judge(c crcCase, stream, reply []byte, o cli.Outcome) harness.Result {
 	if o.PriorHung {
 		return harness.Fail("an earlier call (%s) on the same client did not return", c.Prior)
 	}
+	if msg := o.PriorIntact(); msg != "" {
+		return harness.Fail("%s (the later reply had an inconsistent CRC: %x)", msg, stream)
+	}
 	if c.ExcCode != 0 {
 		labels = append(labels, "exception-reply")
 	}
